@@ -2354,7 +2354,12 @@ class FuncLambda(ValueFunc):
                     "Missing argument " + self.argNames[i],
                     pos,
                 )
-        result = self.body.evaluate(env)
+        try:
+            result = self.body.evaluate(env)
+        except CklRuntimeError as e:
+            if e.pos is None:
+                e.pos = getattr(self.body, "pos", None)
+            raise
         if isinstance(result, ValueControlReturn):
             return result.value
         elif isinstance(result, ValueControlBreak):
